@@ -49,6 +49,8 @@ func Run(jobPath, out string) {
 				res[i] = RunLayer(jobs[i].P, jobs[i].Acts, true)
 			case "udp":
 				res[i] = RunUDP(jobs[i].P, jobs[i].Acts)
+			case "tcpconc":
+				res[i] = RunTCPConc(jobs[i].P, 3)
 			default:
 				res[i] = RunTCP(jobs[i].P)
 			}
